@@ -442,8 +442,43 @@ func runENCINPUTS(c *Ctx) {
 				}
 			}
 		}
+		// the encoder is handed the node's entries as they are: nothing on the encode path replaces or edits the
+		// Key or Value list of the node being encoded (dropping the Link list of a leaf is the one tabled edit, TRIM)
+		for _, b := range fn.Blocks {
+			if ir.IsDead(b) {
+				continue
+			}
+			for _, ins := range b.Instrs {
+				st, ok := ins.(*ssa.Store)
+				if !ok {
+					continue
+				}
+				var fa *ssa.FieldAddr
+				switch a := st.Addr.(type) {
+				case *ssa.FieldAddr:
+					fa = a
+				case *ssa.IndexAddr:
+					if ld, ok := a.X.(*ssa.UnOp); ok && ld.Op == token.MUL {
+						fa, _ = ld.X.(*ssa.FieldAddr)
+					}
+				}
+				if fa == nil {
+					continue
+				}
+				name := ir.FieldName(fa.X.Type(), fa.Field)
+				if name != "Key" && name != "Value" {
+					continue
+				}
+				if bt := fa.X.Type(); !(isNodePtr(bt) || ir.IsPtrToNamed(bt, "Node")) {
+					continue
+				}
+				bad = true
+				c.Violation(fn, P.InstrPos(st), "encode path rewrites the node's ."+name,
+					"the bytes of a node, and so its name, must be a function of all its entries: replacing or editing the "+name+" list on the way to the encoder makes two versions that differ there persist under one name (and the stored node loses them)")
+			}
+		}
 		if !bad {
-			c.OK(P.Pos(fn.Pos()), "encode-path function "+ir.FuncName(fn), "reads only Key/Value/Link", false)
+			c.OK(P.Pos(fn.Pos()), "encode-path function "+ir.FuncName(fn), "reads only Key/Value/Link, and leaves Key and Value as they are", false)
 		}
 	}
 }
